@@ -38,6 +38,13 @@ def build(case):
             d[et] = obj
             groups[g["gid"]] = obj
             gid_of[id(obj)] = g["gid"]
+        # groups built by the user subclass itself: real _GroupElem objects on the same coordinates that are
+        # NOT groups of the mesh (one new object per variant)
+        for g in m.get("user_groups", []):
+            et = getattr(ElemType, g["type"])
+            obj = GroupElemFactory.Create(et, np.array(g["connect"], dtype=int).reshape(-1, g["nPe"]), coords)
+            groups[g["gid"]] = obj
+            gid_of[id(obj)] = g["gid"]
         meshes.append(Mesh(d))
 
     dofn = case["dof_n"]            # per problem type index
